@@ -38,6 +38,10 @@ def jobs(tier, seed):
     # integer zones and integer categories (the usual land-cover case)
     out.append({'name': 'xtab2d-1x3-count-none-int', 'kind': '2d', 'shape': [1, 3], 'agg': 'count', 'sel': 'none', 'zdtype': 'int32', 'vdtype': 'int32'})
     out.append({'name': 'xtab2d-1x2-percentage-cat1-int', 'kind': '2d', 'shape': [1, 2], 'agg': 'percentage', 'sel': 'cat1', 'zdtype': 'uint8', 'vdtype': 'int64'})
+    # non-finite zone ids (NaN, +-inf) are no zones: their cells belong to no row and must not disturb the others
+    out.append({'name': 'xtab2d-1x3-count-none-zinf', 'kind': '2d', 'shape': [1, 3], 'agg': 'count', 'sel': 'none', 'zinf': True})
+    out.append({'name': 'xtab3d-1x3-sum-none-zinf', 'kind': '3d', 'shape': [1, 3], 'agg': 'sum', 'sel': 'none', 'zinf': True})
+    out.append({'name': 'xtab3d-1x3-count-cat1-zinf', 'kind': '3d', 'shape': [1, 3], 'agg': 'count', 'sel': 'cat1', 'zinf': True})
     out.append({'name': 'xtab2d-1x2-count-none-inf', 'kind': '2d', 'shape': [1, 2], 'agg': 'count', 'sel': 'none', 'inf': True})
     out.append({'name': 'xtab2d-1x3-percentage-none-inf', 'kind': '2d', 'shape': [1, 3], 'agg': 'percentage', 'sel': 'none', 'inf': True})
     for agg in ('count', 'sum', 'mean', 'max', 'min'):
@@ -63,9 +67,11 @@ def body(ctx, job):
     sel = job['sel']
     agg = job['agg']
     zdt, vdt = job.get('zdtype', 'float64'), job.get('vdtype', 'float64')
-    zones_d = ctx.array('z', (h, w), zdt, nan=False, **({'lo': 0 if zdt[0] == 'u' else -2, 'hi': 3} if zdt[0] in 'iu' else {}))
+    zinf = bool(job.get('zinf'))
+    zones_d = ctx.array('z', (h, w), zdt, nan=zinf, inf=zinf, **({'lo': 0 if zdt[0] == 'u' else -2, 'hi': 3} if zdt[0] in 'iu' else {}))
     zones = raster(zones_d, name='zones')
     zl = zones_d.flat_values()
+    zfin = [isfinite(z) for z in zl]
     nodata = ctx.real('nodata')
     zone_ids = None
     cat_ids = None
@@ -90,7 +96,7 @@ def body(ctx, job):
 
         # row set = requested zones that exist (all existing zones when unrestricted), no duplicates
         def exists_zone(z):
-            return Or(*[zk == z for zk in zl])
+            return Or(*[And(f, zk == z) for f, zk in zip(zfin, zl)])
 
         def exists_cat(c):
             return Or(*[And(vk == c, ok) for vk, ok in zip(vl, valid)])
@@ -147,11 +153,11 @@ def body(ctx, job):
         ctx.check('3d-columns', [sc.as_const(c) if sc.is_sym(c) else c for c in cols] == ([20] if sel == 'cat1' else [10, 20]))
         ctx.observe('zone_column', list(rows))
         for i, zi in enumerate(rows):
-            ctx.check('row-label-is-a-zone', Or(*[zk == zi for zk in zl]))
+            ctx.check('row-label-is-a-zone', Or(*[And(f, zk == zi) for f, zk in zip(zfin, zl)]))
             for j in range(i):
                 ctx.check('rows-distinct', zi != rows[j])
-        for q in zl:
-            ctx.check('every-zone-has-a-row', Or(*[r == q for r in rows]))
+        for f, q in zip(zfin, zl):
+            ctx.check('every-zone-has-a-row', Implies(f, Or(*[r == q for r in rows]) if rows else False))
         for i, zi in enumerate(rows):
             for cj in cols:
                 li = 0 if (sc.as_const(cj) if sc.is_sym(cj) else cj) == 10 else 1
